@@ -236,6 +236,41 @@ def main(tier):
                                                                        "with_macro_history": a[:500], "fresh": b[:300]})
             else:
                 run.nontriv(("lazymacro", fam, kind, first))
+        # ---------- a host stream parser that reads its operand with the stream's own ReadExpr ('R<operand>', the handler evaluates the
+        #            operand): the operand is judged by the VM's switches exactly as the same text standing alone is
+        OPERANDS = ["1|2", "3&1", "6^3", "`{% i=0; while i<3 { i=i+1 }; i %}`", "`{% func f(x){ return x*2 }; f(21) %}`", "`{% if 1 { 7 } else { 8 } %}`",
+                    "2d", "(2d)+1", "3d+d", "1+2", "2d6", "(1|4)+1", "`{1|2}`", "[1|2, 3][0]", "d", "2a5", "3c2", "4f", "b2", "p", "f", "(2d)kh1"] + \
+                   [FAM_BODY[f_] for f_ in MACRO]
+        sp, spmeta = [], []
+        # (only the Disable* switches: the stream reads its operand with every optional family OFF, so under an Enable* switch the operand
+        #  is merely read shorter than the text alone would be — stricter, not a way round a switch)
+        for flags in ("", "B", "S", "N", "BS", "BN", "SN", "BSN", "M", "BSNM"):
+            for opnd in OPERANDS:
+                cfgt = (flags + "," if flags else "") + "L30000"
+                sp.append(f"custom {cfgt} {5:032x} spexpr {hx('R' + opnd)}")
+                sp.append(f"custom {cfgt} {5:032x} - {hx(opnd)}")
+                spmeta.append((flags, opnd))
+        so = go_child(line_timeout=20).run(sp)
+        for i, (flags, opnd) in enumerate(spmeta):
+            a, b = so[2 * i], so[2 * i + 1]
+            run.evaluations += 1
+            run.count("readexpr-operand.cases")
+            def key(t):
+                f = t.split()
+                if f[0] == "ok":
+                    mm = [x for x in f if x.startswith("m=")]
+                    return ("ok", f[1], mm[0] if mm else "")
+                return (f[0], "")       # a refusal quotes the text it was given: only the fact is compared
+            ka, kb = key(a), key(b)
+            whole_alone = kb[0] == "ok" and kb[2] == "m=" + hx(opnd)
+            if kb[0] in ("panic", "died") or ka[0] in ("panic", "died"):
+                continue    # crashes belong to C01
+            # alone: accepted whole / accepted in part / refused.  Behind the custom die: the same value / the value of the part / the same refusal
+            if ka[:2] != kb[:2]:
+                run.violation("readexpr-operand-judged-by-other-switches", {"flags": flags or "-", "operand": opnd, "as_custom_dice_operand": a[:300], "alone": b[:300],
+                                                                           "alone_accepts_whole_text": whole_alone})
+            else:
+                run.nontriv(("readexpr", flags, opnd))
         # ---------- configuration stability: whatever earlier inputs did (including failing ones, default-sides expressions that
         #            fail, budgets that run out, st lists), the host's switches are what they were and a later input is judged by them
         DEXPR = ["20", "面数", "1/0", "面数 + 0", "d4"]
